@@ -39,9 +39,12 @@ def _worker(idx):
     spec = _SPECS[idx]
     t0 = time.time()
     try:
+        H.NESTED_ARITY["value"] = 3 if _TIER == "thorough" else 2
         fam = spec.run(_PROG, _TIER)
         if fam.error is None:
             discharge_all(fam, _SEED)
+            if _TIER == "thorough":
+                second_opinion(fam)
         recs = []
         for o in fam.obls:
             r = o.record()
@@ -105,6 +108,26 @@ def discharge_all(fam, seed=0, timeout_ms=solver.DEFAULT_TIMEOUT_MS):
         o.verdict = run(o, timeout_ms=timeout_ms)
         out.append(o)
     fam.obls = out
+
+
+def second_opinion(fam, budget_ms=10000):
+    """Thorough tier: cvc5 is asked about every obligation z3 decided.  A cvc5 `sat` on an
+    obligation z3 proved (or `unsat` on one z3 refuted) is an engine error; a cvc5 timeout /
+    unknown is only 'no second opinion'."""
+    agree = disagree = none = 0
+    for o in fam.obls:
+        v = o.verdict
+        if v is None or v.backend == "trivial" or "(shared)" in v.backend or v.status == "unknown":
+            continue
+        r = solver.cvc5_verdict(o.assumptions, o.goal, budget_ms)
+        if r is None:
+            none += 1
+        elif (r == "unsat") == (v.status == "proved"):
+            agree += 1
+        else:
+            disagree += 1
+            fam.error = f"engine: solver disagreement on {o.name}: z3 says {v.status}, cvc5 says {r}"
+    fam.extra = dict(getattr(fam, "extra", None) or {}, cvc5_agree=agree, cvc5_no_opinion=none, cvc5_disagree=disagree)
 
 
 def extract_model(o):
